@@ -24,10 +24,11 @@ import (
 )
 
 type exprSite struct {
-	name string // Lean def
-	fn   string // "Recv.name" or "name"
-	kind string // "cond": if-condition containing anchor; "assign": RHS of `anchor = …` / `anchor := …`; "arg": first argument of the call `anchor(…)`;
-	// "ret": the single result of a `return` whose text contains anchor; "incr": RHS of `anchor += …`
+	name   string // Lean def
+	fn     string // "Recv.name" or "name"
+	kind   string // "cond": if-condition containing anchor; "assign": RHS of `anchor = …` / `anchor := …`; "arg": first argument of the call `anchor(…)`;
+	// "kv": value of the composite-literal field `anchor: …`; "ret": the single result of a `return` whose text contains anchor;
+	// "for": condition of a `for` containing anchor; "incr": RHS of `anchor += …`
 	anchor string
 	index  int // which of the matches (source order)
 	count  int // how many matches the function must have
@@ -75,6 +76,42 @@ var exprSites = []exprSite{
 	// buffered amount release
 	{"release_underflows", "Stream.onBufferReleased", "cond", "uint64(nBytesReleased)", 0, 1},
 	{"release_crossesLow", "Stream.onBufferReleased", "cond", "s.onBufferedAmountLow", 0, 1},
+	// stream API (C18 / C06, Model/StreamApi.lean): the tests of WriteSCTP, the decisions of packetize, the state gate and
+	// the blocking-write gate of sendPayloadData, the release of blocked writers, the abandonment decision
+	{"write_tooLarge", "Stream.WriteSCTP", "cond", "len(payload)", 0, 2},
+	{"write_notOpen", "Stream.WriteSCTP", "cond", "s.State()", 0, 1},
+	{"write_empty", "Stream.WriteSCTP", "cond", "len(payload)", 1, 2},
+	{"packetize_unordered", "Stream.packetize", "assign", "unordered", 0, 1},
+	{"packetize_fragmentSize", "Stream.packetize", "assign", "fragmentSize", 0, 1},
+	{"packetize_beginning", "Stream.packetize", "kv", "beginningFragment", 0, 1},
+	{"packetize_ending", "Stream.packetize", "kv", "endingFragment", 0, 1},
+	{"packetize_ssnAdvances", "Stream.packetize", "cond", "!useInterleaving", 0, 1},
+	{"send_notEstablished", "Association.sendPayloadData", "cond", "established", 0, 2},
+	{"send_notEstablishedAfterWait", "Association.sendPayloadData", "cond", "established", 1, 2},
+	{"send_gated", "Association.sendPayloadData", "cond", "a.blockWrite", 0, 1},
+	{"send_waits", "Association.sendPayloadData", "for", "a.writePending", 0, 1},
+	{"popPending_notifyWritable", "Association.popPendingDataChunksToSend", "cond", "a.blockWrite", 0, 1},
+	{"checkPR_disabled", "Association.checkPartialReliabilityStatus", "cond", "a.partialReliabilityEnabled()", 0, 1},
+	{"checkPR_isDCEP", "Association.checkPartialReliabilityStatus", "cond", "PayloadTypeWebRTCDCEP", 0, 1},
+	{"checkPR_isRexmit", "Association.checkPartialReliabilityStatus", "cond", "ReliabilityTypeRexmit", 0, 1},
+	{"checkPR_rexmitExhausted", "Association.checkPartialReliabilityStatus", "cond", "chunkPayload.nSent", 0, 1},
+	{"checkPR_isTimed", "Association.checkPartialReliabilityStatus", "cond", "ReliabilityTypeTimed", 0, 1},
+	{"checkPR_timedExpired", "Association.checkPartialReliabilityStatus", "cond", "elapsed", 0, 1},
+	{"reset_notEstablished", "Association.sendResetRequest", "cond", "established", 0, 1},
+	{"close_isOpen", "Stream.Close", "cond", "s.state", 0, 1},
+	{"close_noReadErr", "Stream.Close", "cond", "s.readErr", 0, 1},
+	{"abandoned_viaHead", "chunkPayloadData.abandoned", "ret", "p.head._abandoned", 0, 1},
+	{"abandoned_self", "chunkPayloadData.abandoned", "ret", "p._abandoned", 0, 1},
+	// every path that marks or picks chunks for retransmission, and the advance of the peer ack point, look at abandoned()
+	{"markAll_skips", "payloadQueue.markAllToRetrasmit", "cond", "abandoned()", 0, 1},
+	{"rtx_skipsAbandoned", "Association.getDataPacketsToRetransmit", "cond", "abandoned()", 0, 1},
+	{"miss_eligible", "Association.processFastRetransmission", "cond", "abandoned()", 0, 1},
+	{"fastRtx_skipsDone", "Association.gatherOutboundFastRetransmissionPackets", "cond", "abandoned()", 0, 1},
+	{"rackSack_skips", "Association.onRackAfterSACK", "cond", "abandoned()", 0, 1},
+	{"rackTimeout_skips", "Association.onRackTimeoutLocked", "cond", "abandoned()", 0, 1},
+	{"pto_skips", "Association.onPTOTimerLocked", "cond", "abandoned()", 0, 1},
+	{"advanceSack_stops", "Association.finishAcknowledgement", "cond", "abandoned()", 0, 1},
+	{"advanceT3_stops", "Association.onRetransmissionTimeout", "cond", "abandoned()", 0, 1},
 	// graceful shutdown (C08): the state gates and decisions the model Sd re-types (Props/C08: C08_sites_match_code)
 	{"sd_shutdownRefused", "Association.Shutdown", "cond", "state", 0, 1},
 	{"sd_writeRefused", "Association.sendPayloadData", "cond", "state", 0, 2},
@@ -226,6 +263,14 @@ func (c *ctx) findSite(s exprSite) (ast.Expr, string) {
 		case *ast.CallExpr:
 			if s.kind == "arg" && exprText(x.Fun) == s.anchor && len(x.Args) >= 1 {
 				found = append(found, x.Args[0])
+			}
+		case *ast.KeyValueExpr:
+			if s.kind == "kv" && exprText(x.Key) == s.anchor {
+				found = append(found, x.Value)
+			}
+		case *ast.ForStmt:
+			if s.kind == "for" && x.Cond != nil && strings.Contains(exprText(x.Cond), s.anchor) {
+				found = append(found, x.Cond)
 			}
 		}
 		return true
